@@ -11,17 +11,36 @@ import vlib, shellgen, printlib
 LEVEL = "model_checking"
 
 
-def focus(R):
-    """printer focus of the grammar (start symbol prprog): every combination of list terminators in compound commands"""
-    cfg = "INIT Init\nNEXT Next\nINVARIANT EmitCase\nCONSTANTS MaxDev = 1\n MaxDepth = 3\n StartSym = \"prprog\"\n"
-    res = R.tlc("ShellGen", cfg, name="ShellGen-prprog", timeout=3000)
+def focus(R, sym="prprog"):
+    """focus of the grammar: prprog = compound commands with every combination of list terminators; hdprog = here-documents at
+    every redirection site"""
+    cfg = "INIT Init\nNEXT Next\nINVARIANT EmitCase\nCONSTANTS MaxDev = 1\n MaxDepth = 3\n StartSym = \"%s\"\n" % sym
+    res = R.tlc("ShellGen", cfg, name="ShellGen-" + sym, timeout=3000)
     return shellgen._cases(res)
 
 
 def programs(R):
+    """primary programs (all 256 configurations) and additional ones: the multi-line forms (every optional newline present) and
+    a sample of the here-document focus; the quick tier prints the additional ones under a rotating sample of 32 configurations"""
+    import random
+    rnd = random.Random(R.seed)
+    base = shellgen.bfs(R, 2)
+    foc = focus(R)
+    sim = shellgen.simulate(R, 60 if R.tier == "quick" else 800)
+    prim = shellgen.dedup(base + foc + sim)
+    hd = focus(R, "hdprog")
+    hd = rnd.sample(hd, min(len(hd), 900 if R.tier == "quick" else len(hd)))
+    extra = []
+    for c in [c for c in base if c["dev"] <= 1] + foc + hd + sim:
+        if c["ml"] != c["src"]:
+            extra.append(dict(c, src=c["ml"]))
+    extra = shellgen.dedup(hd + extra)
+    seen = set(c["src"] for c in prim)
+    extra = [dict(c) for c in extra if c["src"] not in seen]
     if R.tier == "quick":
-        return shellgen.dedup(shellgen.bfs(R, 2) + focus(R) + shellgen.simulate(R, 60))
-    return shellgen.dedup(shellgen.bfs(R, 2) + focus(R) + shellgen.simulate(R, 800))
+        for i, c in enumerate(extra):
+            c["only"] = sorted((i * 37 + j * 8 + (i // 8) % 8) % 256 for j in range(32))
+    return prim + extra
 
 
 def report(R, obs, bad, which):
@@ -40,8 +59,9 @@ def report(R, obs, bad, which):
 
 
 def run(R):
-    R.rule = ("cases = (program, configuration): ShellGen programs (all derivations with at most 2 non-minimal productions + "
-              "seeded random long ones) x the complete product of 256 printer configurations; distinct_nontrivial = distinct "
+    R.rule = ("cases = (program, configuration): ShellGen programs (all derivations with at most 2 non-minimal productions, the printer "
+              "focus, seeded random long ones) x the complete product of 256 printer configurations; plus their multi-line forms and "
+              "the here-document focus (quick tier: 32 configurations each, rotating; thorough: all 256); distinct_nontrivial = distinct "
               "programs containing a compound command, a here-document or a multi-line construct")
     R.assumptions = ["programs are first parsed by the real parser; the skeleton of that parse is the reference (independent of C02)",
                      "byte identity of skeletons is decided by the driver; differing ones are judged by PrintRT.tla (Norm)"]
@@ -53,6 +73,7 @@ def run(R):
     bad = printlib.validate(R, "C05", obs, "c05")
     report(R, obs, bad, "round trip fails")
     R.evaluations = sum(o["ncfg"] for o in obs)
+    R.notes["additional_programs"] = sum(1 for c in cases if "only" in c) if R.tier == "quick" else 0
     R.traces = len(obs)
     R.nontrivial = set(o["src"] for o in obs if any(x in o["sk"] for x in ("if[", "for[", "case[", "while[", "until[", "grp[", "sub[", "fn[", "body[")))
     for o in obs[len(obs) // 2: len(obs) // 2 + 3]:
